@@ -329,3 +329,38 @@ M("c08-noc-not-appended", "C08", "cola/libcola/colafd.cpp",
   "            recGenerateClusterVariablesAndConstraints(vs, priority,\n                    noc, clusterHierarchy, extraConstraints);\n            extraConstraints.push_back(noc);",
   "            recGenerateClusterVariablesAndConstraints(vs, priority,\n                    noc, clusterHierarchy, extraConstraints);\n            if (!clusterHierarchy->clusters.empty()) extraConstraints.push_back(noc);",
   mention=["WIRING"])
+
+# ---------------------------------------------------------------- C10
+M("c10-first-segment-shiftable", "C10", "cola/libavoid/orthogonal.cpp",
+  "                if ((i == 1) || ((i + 1) == displayRoute.size()))\n                {\n                    // Is first or last segment of route.",
+  "                if ((i == 1) || (((i + 1) == displayRoute.size()) && (displayRoute.size() > 3)))\n                {\n                    // Is first or last segment of route.",
+  mention=["END-SEGMENTS-FIXED"])
+M("c10-checkpoint-segment-shiftable", "C10", "cola/libavoid/orthogonal.cpp",
+  "                if (hasCheckpoints && !nudgeFinalSegments)\n                {", "                if (hasCheckpoints && !nudgeFinalSegments && (checkpoints.size() > 1))\n                {",
+  mention=["END-SEGMENTS-FIXED"])
+M("c10-fixed-moves", "C10", "cola/libavoid/orthogonal.cpp",
+  "            if (fixed)\n            {\n                return;\n            }\n            double newPos = variable->finalPosition;", "            if (fixed && !finalSegment)\n            {\n                return;\n            }\n            double newPos = variable->finalPosition;",
+  mention=["FIXED-STAYS"])
+M("c10-no-clamp", "C10", "cola/libavoid/orthogonal.cpp",
+  "            newPos = std::max(newPos, minSpaceLimit);\n            newPos = std::min(newPos, maxSpaceLimit);", "            newPos = std::max(newPos, minSpaceLimit);",
+  mention=["FIXED-STAYS"])
+M("c10-fixed-weight-free", "C10", "cola/libavoid/orthogonal.cpp",
+  "                // Fixed segments shouldn't get moved.\n                weight = fixedWeight;", "                // Fixed segments shouldn't get moved.\n                weight = strongWeight;",
+  mention=["FIXED-STAYS", "createSolverVariable"])
+M("c10-wrong-coordinate", "C10", "cola/libavoid/orthogonal.cpp",
+  "                connRef->displayRoute().ps[index][dimension] = newPos;", "                connRef->displayRoute().ps[index][1 - dimension] = newPos;",
+  mention=["FIXED-STAYS"])
+
+# ---------------------------------------------------------------- C14
+M("c14-padding-left-on-core", "C14", "cola/libdialect/hola.cpp",
+  "    core->padAllNodes(-preRoutingGap, -preRoutingGap);", "    if (holaOpts.do_near_align) core->padAllNodes(-preRoutingGap, -preRoutingGap);", mention=["PADDING-ZERO-SUM"])
+M("c14-layer2-wrong", "C14", "cola/libdialect/hola.cpp",
+  "    double nodePaddingLayer2 = nodePadding - nodePaddingLayer1;", "    double nodePaddingLayer2 = nodePadding - preRoutingGap;", mention=["PADDING-ZERO-SUM"])
+M("c14-tree-path-no-unpad", "C14", "cola/libdialect/hola.cpp",
+  "        // Remove node padding.\n        G.padAllNodes(-nodePadding, -nodePadding);", "        // Remove node padding.\n        core->padAllNodes(-nodePadding, -nodePadding);",
+  mention=["PADDING-ZERO-SUM"])
+M("c14-addpadding-height", "C14", "cola/libdialect/nodes.cpp",
+  "    m_w += dw;\n    m_h += dh;", "    m_w += dw;\n    m_h += dw;", mention=["PADDING-PRIMITIVES"])
+M("c14-polyline-routing", "C14", "cola/libdialect/hola.cpp",
+  "    // Set up a routing adapter.\n    RoutingAdapter ra(Avoid::OrthogonalRouting);", "    // Set up a routing adapter.\n    RoutingAdapter ra(Avoid::PolyLineRouting);",
+  mention=["ORTHOGONAL-ROUTING"])
